@@ -217,43 +217,49 @@ class Path:
         r = None
         model = None
         backend = "z3"
-        order = ["cvc5", "z3"] if self.prefer == "cvc5" else ["z3cli", "cvc5", "z3"] if self.prefer == "z3cli" else ["z3-short", "cvc5", "z3"]
-        for be in order:
-            if be == "z3cli":
-                r2 = z3cli_check(self.pc + [z3.Not(g)], self.timeout_ms)
-                if r2 in ("sat", "unsat"):
-                    r = z3.sat if r2 == "sat" else z3.unsat
-                    backend = "z3-4.8.12"
-                    break
-            elif be == "cvc5":
-                r2 = cvc5_check(self.pc + [z3.Not(g)], self.timeout_ms)
-                if r2 in ("sat", "unsat"):
-                    r = z3.sat if r2 == "sat" else z3.unsat
-                    backend = "cvc5"
+        base_order = ["cvc5", "z3"] if self.prefer == "cvc5" else ["z3cli", "cvc5", "z3"] if self.prefer == "z3cli" else ["z3-short", "cvc5", "z3"]
+        reason = ""
+        # a second round with four times the budget before an obligation is left undecided: verdicts must not flip to
+        # `unknown` because the machine is busy
+        for budget in (self.timeout_ms, self.timeout_ms * 4):
+            order = base_order if budget == self.timeout_ms else [b for b in base_order if b != "z3-short"]
+            for be in order:
+                if be == "z3cli":
+                    r2 = z3cli_check(self.pc + [z3.Not(g)], budget)
+                    if r2 in ("sat", "unsat"):
+                        r = z3.sat if r2 == "sat" else z3.unsat
+                        backend = "z3-4.8.12"
+                        break
+                elif be == "cvc5":
+                    r2 = cvc5_check(self.pc + [z3.Not(g)], budget)
+                    if r2 in ("sat", "unsat"):
+                        r = z3.sat if r2 == "sat" else z3.unsat
+                        backend = "cvc5"
+                        if r == z3.sat:
+                            # ask z3 for a model of the same query (best effort, short)
+                            self.solver.push()
+                            self.solver.add(z3.Not(g))
+                            self.solver.set("timeout", 2000)
+                            if self.solver.check() == z3.sat:
+                                model = model_to_dict(self.solver.model())
+                            self.solver.set("timeout", self.timeout_ms)
+                            self.solver.pop()
+                        break
+                else:
+                    self.solver.push()
+                    self.solver.add(z3.Not(g))
+                    self.solver.set("timeout", min(1500, budget) if be == "z3-short" else budget)
+                    r = self.solver.check()
                     if r == z3.sat:
-                        # ask z3 for a model of the same query (best effort, short)
-                        self.solver.push()
-                        self.solver.add(z3.Not(g))
-                        self.solver.set("timeout", 2000)
-                        if self.solver.check() == z3.sat:
-                            model = model_to_dict(self.solver.model())
-                        self.solver.set("timeout", self.timeout_ms)
-                        self.solver.pop()
-                    break
-            else:
-                self.solver.push()
-                self.solver.add(z3.Not(g))
-                if be == "z3-short":
-                    self.solver.set("timeout", min(1500, self.timeout_ms))
-                r = self.solver.check()
-                if r == z3.sat:
-                    model = model_to_dict(self.solver.model())
-                reason = self.solver.reason_unknown() if r == z3.unknown else ""
-                self.solver.set("timeout", self.timeout_ms)
-                self.solver.pop()
-                if r != z3.unknown:
-                    backend = "z3"
-                    break
+                        model = model_to_dict(self.solver.model())
+                    reason = self.solver.reason_unknown() if r == z3.unknown else ""
+                    self.solver.set("timeout", self.timeout_ms)
+                    self.solver.pop()
+                    if r != z3.unknown:
+                        backend = "z3"
+                        break
+            if r in (z3.sat, z3.unsat):
+                break
         ms = (time.time() - t0) * 1000
         if r == z3.unsat:
             self.results.record(Ob(name, "unsat", detail, ms=ms, backend=backend))
@@ -281,15 +287,31 @@ class Path:
         if r == z3.unsat:
             return False
         from .solver2 import cvc5_check
-        return cvc5_check(list(self.pc), self.timeout_ms) == "sat"
+        r2 = cvc5_check(list(self.pc), self.timeout_ms)
+        if r2 == "sat":
+            return True
+        if r2 == "unsat":
+            return False
+        return None      # neither solver decides: not counted as vacuous (only a proved contradiction is), reported as unconfirmed
 
     def fail(self, name, detail="", model=None):
+        """an obligation that fails as soon as this point is reached: a violation only if the path condition is satisfiable"""
         if self.pos < len(self.prefix):
             return
         if model is None:
             r = self._check()
             if r == z3.sat:
                 model = model_to_dict(self.solver.model())
+            elif r == z3.unsat:
+                return      # the path was entered on an `unknown` feasibility answer and is in fact infeasible
+            else:
+                from .solver2 import cvc5_check
+                r2 = cvc5_check(list(self.pc), self.timeout_ms)
+                if r2 == "unsat":
+                    return
+                if r2 != "sat":
+                    self.results.record(Ob(name, "unknown", detail + " reason=reachability of this point undecided by both solvers"))
+                    return
         self.results.record(Ob(name, "sat", detail, model=model or {}))
 
     def get_model(self):
